@@ -71,6 +71,9 @@ type VC struct {
 	heap0shared map[string]Term
 	globalsUsed map[string]bool
 	canaries []*Obligation
+	explicitTargs []types.Type
+	lemmaPkg string
+	immutable map[string]bool
 	knownExcuses []*KnownFinding
 	excused map[string]*excuseInfo
 	loopsDone map[*ssa.Function]bool
@@ -117,6 +120,13 @@ type State struct {
 	nonnil map[string]bool
 	panicking bool
 	ghostLocals map[string]Val
+	inQuant int
+	dyn    map[string]dynInfo // interface value term -> concrete value it was made from (for devirtualisation)
+}
+
+type dynInfo struct {
+	typ types.Type
+	val Val
 }
 
 func (vc *VC) fresh(prefix string) string {
@@ -172,6 +182,10 @@ func (st *State) fork() *State {
 	n.ghostLocals = make(map[string]Val, len(st.ghostLocals))
 	for k, v := range st.ghostLocals {
 		n.ghostLocals[k] = v
+	}
+	n.dyn = make(map[string]dynInfo, len(st.dyn))
+	for k, v := range st.dyn {
+		n.dyn[k] = v
 	}
 	n.fr = st.fr.copyChain()
 	st.vc.paths++
@@ -313,7 +327,36 @@ func (st *State) leafSortKey(p PtrV, lf leaf) (string, string) {
 	return key, srt
 }
 
+// immutableFun: write-once fields (declared "type T: immutable f, g") are modelled as functions of the object reference.
+func (vc *VC) immutableFun(key string, srt string) (string, bool) {
+	if vc.immutable == nil {
+		vc.immutable = map[string]bool{}
+		for _, td := range vc.cs.Types {
+			for _, c := range td.Clauses {
+				if c.Kw == "immutable" {
+					for _, f := range strings.Split(c.Text, ",") {
+						if f = strings.TrimSpace(f); f != "" {
+							vc.immutable[objKey(td.Pkg+"."+td.Name, f)] = true
+						}
+					}
+				}
+			}
+		}
+	}
+	if !vc.immutable[key] {
+		return "", false
+	}
+	name := "imm." + strings.TrimPrefix(key, "F:")
+	vc.strLits["fun."+name] = "(Int) " + srt
+	return smtIdent(name), true
+}
+
 func (st *State) readLeaf(p PtrV, lf leaf, old bool) Term {
+	if p.Kind == "obj" {
+		if fn, ok := st.vc.immutableFun(st.vc.leafKey(p, lf.path), lf.sort); ok {
+			return app(fn, lf.sort, p.Base)
+		}
+	}
 	key, _ := st.leafSortKey(p, lf)
 	var arr Term
 	if old {
@@ -328,6 +371,21 @@ func (st *State) readLeaf(p PtrV, lf leaf, old bool) Term {
 }
 
 func (st *State) writeLeaf(p PtrV, lf leaf, v Term) {
+	if p.Kind == "obj" {
+		if fn, ok := st.vc.immutableFun(st.vc.leafKey(p, lf.path), lf.sort); ok {
+			// write-once: only on an object allocated by this function, and only once on this path
+			k := "immw:" + st.vc.leafKey(p, lf.path) + "@" + p.Base.S
+			if !st.nonnil["fresh:"+p.Base.S] {
+				fail("store to immutable field %s of an object not allocated in this function", st.vc.leafKey(p, lf.path))
+			}
+			if st.nonnil[k] {
+				fail("second store to immutable field %s", st.vc.leafKey(p, lf.path))
+			}
+			st.nonnil[k] = true
+			st.assume(tEq(app(fn, lf.sort, p.Base), v))
+			return
+		}
+	}
 	key, _ := st.leafSortKey(p, lf)
 	arr := st.get(key)
 	if v.Sort != lf.sort {
@@ -453,6 +511,9 @@ func (st *State) loadAt(p PtrV, t types.Type, sub string, old bool) Val {
 }
 
 func (st *State) assumeSliceWF(s SliceV) {
+	if st.inQuant > 0 {
+		return
+	}
 	key := "wf:" + s.Arr.S + s.Len.S + s.Cap.S + s.Off.S
 	if st.nonnil[key] {
 		return
@@ -462,7 +523,7 @@ func (st *State) assumeSliceWF(s SliceV) {
 }
 
 func (st *State) assumeRange(t Term, typ types.Type) {
-	if t.Sort != SInt {
+	if t.Sort != SInt || st.inQuant > 0 {
 		return
 	}
 	lo, hi, ok := intRange(typ)
@@ -673,10 +734,14 @@ func (st *State) allocRef(prefix string) Term {
 	st.assume(tAnd(tNot(tEq(r, tInt(0))), tGt(r, tInt(0)), tNot(tSelect(al, r))))
 	st.set(allocKey, tStore(al, r, tTrue))
 	st.nonnil[r.S] = true
+	st.nonnil["fresh:"+r.S] = true
 	return r
 }
 
 func (st *State) assumeAllocated(r Term) {
+	if st.inQuant > 0 {
+		return
+	}
 	st.vc.setKeySort(allocKey, arrSort(SInt, SBool))
 	key := "al:" + r.S
 	if st.nonnil[key] {
